@@ -57,6 +57,9 @@ def main():
         if left:
             print("WARNING: /repo not clean after undo:", left)
     res["detected_by"] = sorted(p for p, v in res["checks"].items() if v["exit"] == 1)
+    res["infra_errors"] = sorted(p for p, v in res["checks"].items() if v["exit"] not in (0, 1))
+    if res["infra_errors"]:
+        print("INFRA (exit 2) in:", res["infra_errors"])
     json.dump(res, open(os.path.join(d, "result.json"), "w"), indent=1)
     print("demo clean/patched:", res.get("demo_exit_clean"), res.get("demo_exit_patched"), "| tests:", res.get("tests_patched"))
     print("detected by:", res["detected_by"])
